@@ -43,6 +43,9 @@ type Str struct {
 type Iface struct {
 	T types.Type // dynamic type; nil = nil interface
 	V Value
+	// SymNil, when set, is the condition under which this interface value is nil (verifrt.MaybeNil): only comparisons with
+	// nil look at it; every other use treats the value as non-nil.
+	SymNil *Term
 }
 
 type FuncV struct {
